@@ -1,3 +1,4 @@
+import Ebu.Props.C03
 import Ebu.Spec.Conc
 import Ebu.Proofs.Conc
 /-!
@@ -40,5 +41,10 @@ and exactly when its mutex is held -/
 theorem seq_mutex (progs : List (List Op)) (s : Sys) (h : Reachable progs s) (rid : Nat) :
     sumNat (s.ths.map (inside rid)) = s.sh.held.count rid ∧ s.sh.held.count rid ≤ 1 :=
   Ebu.Conc.seq_mutex progs s h rid
+
+/-- the atomic subscribe / removal steps of M2 are what the CURRENT source does: every registry mutator looks up
+and updates `shard.handlers` inside one write-locked critical section (fact table regenerated on every run) -/
+theorem registry_steps_atomic : Ebu.Locks.RegistryOpsAtomic Ebu.Generated.accessFacts = true :=
+  Ebu.Props.C03.facts_registry_ops_atomic
 
 end Ebu.Props.C02
